@@ -4,11 +4,13 @@
    encryption reader over a throttled inner stream, by enc_reader_refines), then instantiated
    with Throttled b / Cursor b:
      read_full, read_exact, parse_block (ArchiveFileBlock::from), get_hash. *)
+From MLA Require Import Limit.
 From MLA Require Import Base Stream Blocks Reader.
 From Coq Require Import ZifyBool ZifyNat ZifyN.
 Open Scope N_scope.
 
 Section TwoStreams.
+  Context {LIM : Limit}.
   Variables S1 S2 : Stream.
   Variable b : bytes.
   Variable R1 : st S1 -> N -> Prop.
